@@ -7,6 +7,10 @@ Line-protocol driver for the C18 models (shard assignment + master state machine
   burst up <id> down <id> ...   (a batch of node events; answers the state after the last one)
   batch <line> | <line> | ...   (single-event lines; answers the state after the last one)
   noop <what>                   (a malformed event: the state stays as it is)
+  leaders <id> | replicas <id>  (StorageState.LeadersOnNode / ReplicasOnNode on the current state)
+  qtargets <db>                 (the broker's reading: every online shard of <db> > the live node it is sent to)
+  Single events are applied with `Master.step2` — the handlers written with the StorageState helpers, as
+  state_manager.go writes them (`step2 = step` on every reachable state: Props.C18.helpers_refine_step).
   cfgh <db> <numShards> <rf> <faults> | n1 n2 ... | none|some s:r,r ... | none|some s:r,r ...
       (the repository side of one handled config event: registered nodes in listing order, the
        persisted assignment found, the assignment persisted afterwards as observed; faults is `-` or
@@ -15,6 +19,7 @@ Line-protocol driver for the C18 models (shard assignment + master state machine
 -/
 import LinVerif.Util.Proto
 import LinVerif.Model.Master
+import LinVerif.Model.C18State
 
 namespace LinVerif.Driver.C18
 open LinVerif LinVerif.Assign LinVerif.Master
@@ -54,6 +59,11 @@ def showState (st : St) : String :=
       s!"{db}.{sid}:{s.state}:{s.leader}:{showReplicas s.replicas}")))
   s!"live={showReplicas live} dbs={showReplicas (st.dbs.toArray.qsort (· < ·)).toList} " ++ " ".intercalate body
 
+def showOnNode (res : List (Nat × List Nat)) : String :=
+  if res.isEmpty then "-" else
+  " ".intercalate ((sortByKey res).map (fun (db, ids) =>
+    s!"{db}:{showReplicas (ids.toArray.qsort (· < ·)).toList}"))
+
 def parseBurst : List String → Option (List Event)
   | [] => some []
   | "up" :: id :: rest => do
@@ -89,30 +99,50 @@ def stepOne (st : St) (ws : List String) : St × String :=
       | _, _, _, _, _, _, _ => (st, "bad-op")
     | _ => (st, "bad-op")
   | ["reset"] => (St.init, "ok")
+  | ["leaders", id] =>
+    match id.toNat? with
+    | some i => (st, showOnNode (leadersOnNode st.shards i))
+    | none => (st, "bad-op")
+  | ["replicas", id] =>
+    match id.toNat? with
+    | some i => (st, showOnNode (replicasOnNode st.asg i))
+    | none => (st, "bad-op")
+  | ["qtargets", db] =>
+    match db.toNat? with
+    | some d =>
+      match queryTargets st d with
+      | none => (st, "no-db")
+      | some ts =>
+        let parts := (sortByKey ts).map (fun (sid, t) =>
+          match t with
+          | some l => s!"{sid}>{l}"
+          | none => s!"{sid}>?")
+        (st, if parts.isEmpty then "-" else " ".intercalate parts)
+    | none => (st, "bad-op")
   | ["noop", _] => (st, showState st)      -- an event the manager rejects (malformed config / node event)
   | "burst" :: rest =>
     match parseBurst rest with
-    | some evs => let s := Master.run st evs; (s, showState s)
+    | some evs => let s := Master.run2 st evs; (s, showState s)
     | none => (st, "bad-op")
   | ["up", id] =>
     match id.toNat? with
-    | some i => let s := Master.step st (.nodeUp i); (s, showState s)
+    | some i => let s := Master.step2 st (.nodeUp i); (s, showState s)
     | none => (st, "bad-op")
   | ["down", id] =>
     match id.toNat? with
-    | some i => let s := Master.step st (.nodeDown i); (s, showState s)
+    | some i => let s := Master.step2 st (.nodeDown i); (s, showState s)
     | none => (st, "bad-op")
   | ["dbcfg", db] =>
     match db.toNat? with
-    | some i => let s := Master.step st (.dbCfg i); (s, showState s)
+    | some i => let s := Master.step2 st (.dbCfg i); (s, showState s)
     | none => (st, "bad-op")
   | ["dropdb", db] =>
     match db.toNat? with
-    | some i => let s := Master.step st (.dropDb i); (s, showState s)
+    | some i => let s := Master.step2 st (.dropDb i); (s, showState s)
     | none => (st, "bad-op")
   | "asg" :: db :: shards =>
     match db.toNat?, shards.mapM parseShard with
-    | some i, some a => let s := Master.step st (.assignChanged i a); (s, showState s)
+    | some i, some a => let s := Master.step2 st (.assignChanged i a); (s, showState s)
     | _, _ => (st, "bad-op")
   | _ => (st, "bad-op")
 
